@@ -1599,6 +1599,7 @@ GROUPS = {
     "mtu": ([], [gen_gates, lambda r, c: gen_valid_for(r, c, "mtu"), gen_mtu_sig, gen_find_mtu, gen_imp_mtu, gen_fp_mtu_wrapper]),
     "options": ([], [gen_options]),
     "http": ([], [gen_http, gen_fp_http_wrapper]),
+    "api": (["select", "mtu", "http"], []),      # no definitions of its own: Gen/GenApiC.v composes the groups layers, select, mtu, http end to end
 }
 
 
